@@ -315,10 +315,10 @@ NoCrossPID == \A i \in 1..Len(trans) :
 NoGhost == /\ FwdTops \cap dropped = {}
            /\ RspTos \cap (dropped \cup orphaned) = {}
 FlushEmpty == flushing => (trans = <<>> /\ inflight = {})
-\* quiescent = nothing left to do for component or environment
-Quiescent == /\ topIn = <<>> /\ ~claimed /\ topOut = <<>> /\ trOut = <<>> /\ tlbOwed = {} /\ trIn = <<>>
-             /\ botOut = <<>> /\ memOwed = {} /\ botIn = <<>> /\ ctrlIn = <<>> /\ ctrlOut = 0 /\ ~flushing
-             /\ \A i \in 1..Len(trans) : ~trans[i].done      \* no Forward enabled
+\* EnvIdle = every port buffer empty, the neighbours owe nothing; quiescent = nothing left to do for anybody
+EnvIdle == /\ topIn = <<>> /\ ~claimed /\ topOut = <<>> /\ trOut = <<>> /\ tlbOwed = {} /\ trIn = <<>>
+           /\ botOut = <<>> /\ memOwed = {} /\ botIn = <<>> /\ ctrlIn = <<>> /\ ctrlOut = 0 /\ ~flushing
+Quiescent == EnvIdle /\ \A i \in 1..Len(trans) : ~trans[i].done      \* ... and no Forward enabled
 Settled == /\ trans = <<>> /\ inflight = {}
            /\ \A t \in usedTop : \/ t \in dropped
                                  \/ (t \in FwdTops /\ (t \in orphaned \/ t \in RspTos))
